@@ -282,7 +282,7 @@ func Main(property string, scenarios []Scenario) int {
 			states[k^nm] = struct{}{}
 		}
 		for k := range st.Outcomes {
-			outcomes[k] = struct{}{}
+			outcomes[k^nm] = struct{}{} // distinct (scenario, observation log) pairs
 		}
 		if st.Capped != "" {
 			res.Caps = append(res.Caps, st.Capped)
